@@ -5,12 +5,15 @@
 package reg
 
 import (
+	"context"
 	"crypto/ecdh"
 	"crypto/ecdsa"
-	"crypto/elliptic"
-	"crypto/x509"
 	"crypto/ed25519"
+	"crypto/elliptic"
+	"crypto/hmac"
 	"crypto/rand"
+	"crypto/sha256"
+	"crypto/x509"
 	"encoding/json"
 	"errors"
 	"fmt"
@@ -22,8 +25,10 @@ import (
 	"github.com/hashicorp/nodeenrollment/registration"
 	"github.com/hashicorp/nodeenrollment/rotation"
 	"github.com/hashicorp/nodeenrollment/storage/inmem"
+	teststore "github.com/hashicorp/nodeenrollment/storage/testing"
 	nodetls "github.com/hashicorp/nodeenrollment/tls"
 	"github.com/hashicorp/nodeenrollment/types"
+	"github.com/mr-tron/base58"
 	"google.golang.org/protobuf/proto"
 	"google.golang.org/protobuf/types/known/timestamppb"
 
@@ -35,6 +40,8 @@ const ageMargin = 250 * time.Millisecond
 type Cfg struct {
 	SW       bool     `json:"sw"`
 	Nidl     bool     `json:"nidl"`
+	SO       bool     `json:"so"`   // store-once back end
+	NidE     bool     `json:"nide"` // node-id lookups answer unknown ids with an empty set instead of not-found
 	CertKeys []string `json:"certKeys"`
 	Tokens   []string `json:"tokens"`
 }
@@ -170,10 +177,19 @@ func Run(bh Behaviour, seed int64) ([]Line, error) {
 	if len(bh.Cfg.Tokens) == 0 {
 		bh.Cfg.Tokens = []string{"t1", "t2"}
 	}
-	w, err := world.New(world.Config{Seed: world.Uint64Seed(seed, bh.Id), StorageWrapper: bh.Cfg.SW, NodeIdLoader: bh.Cfg.Nidl})
+	wc := world.Config{Seed: world.Uint64Seed(seed, bh.Id), StorageWrapper: bh.Cfg.SW, NodeIdLoader: bh.Cfg.Nidl}
+	if bh.Cfg.SO {
+		so, err := teststore.New(context.Background())
+		if err != nil {
+			return nil, err
+		}
+		wc.Inner = so
+	}
+	w, err := world.New(wc)
 	if err != nil {
 		return nil, err
 	}
+	w.Rec.NidEmptyOK = bh.Cfg.NidE
 	for _, k := range bh.Cfg.CertKeys {
 		w.EnsureCertKey(k)
 	}
@@ -181,7 +197,7 @@ func Run(bh Behaviour, seed int64) ([]Line, error) {
 		return nil, fmt.Errorf("init roots: %w", err)
 	}
 	r := &run{w: w, cfg: bh.Cfg}
-	cfgMap := map[string]any{"sw": bh.Cfg.SW, "nidl": bh.Cfg.Nidl}
+	cfgMap := map[string]any{"sw": bh.Cfg.SW, "nidl": bh.Cfg.Nidl, "so": bh.Cfg.SO}
 	var lines []Line
 	for i, op := range bh.Ops {
 		ln := Line{Tr: bh.Id, I: i + 1, Cfg: cfgMap, Op: op, Obs: map[string]any{}}
@@ -208,6 +224,7 @@ func (r *run) fetchSpec(op map[string]any) world.FetchSpec {
 		K: s(op, "k"), E: s(op, "e"), Nonce: s(op, "n"),
 		WrapW: s(op, "ww"), WrapK: s(op, "wk"), WrapN: s(op, "wn"),
 		RewrapBy: s(op, "rby"), RewrapKey: s(op, "rwith"), RewrapK: s(op, "rk"), RewrapN: s(op, "rn"),
+		SelfInfo: b(op, "selfinfo"),
 	}
 }
 
@@ -237,9 +254,10 @@ func (r *run) step(op map[string]any, ln *Line) {
 			ln.Res = "skip"
 			return
 		}
-		_, err := w.CreateToken(s(op, "t"), s(op, "s"))
+		tok, err := w.CreateToken(s(op, "t"), s(op, "s"))
 		setErr(err)
 		ln.Res = okErr(err)
+		ln.Obs["reconstructible"] = err == nil && reconstructible(w, tok)
 
 	case "AgeAll":
 		time.Sleep(ageMargin)
@@ -354,6 +372,21 @@ func (r *run) step(op map[string]any, ln *Line) {
 		if err := w.Inner.Store(w.Ctx, raw); err != nil {
 			panic(err)
 		}
+		ln.Res = "ok"
+
+	case "TransplantWhole":
+		t, ok := w.Tokens[s(op, "t")]
+		t2, ok2 := w.Tokens[s(op, "t2")]
+		if !ok || !ok2 || !t.Stored || !t2.Stored || t == t2 || w.StorageWrapper == world.None {
+			ln.Res = "skip"
+			return
+		}
+		src := &types.ServerLedActivationToken{Id: t2.Id}
+		if w.Inner.Load(w.Ctx, &types.ServerLedActivationToken{Id: t.Id}) != nil || w.Inner.Load(w.Ctx, src) != nil {
+			ln.Res = "skip"
+			return
+		}
+		w.Alias.TokenAlias[t.Id] = src
 		ln.Res = "ok"
 
 	case "Fetch":
@@ -479,6 +512,8 @@ func (r *run) submit(op map[string]any, ln *Line) {
 		info.CertificatePublicKeyType = types.KEYTYPE_X25519
 	case "noNonce":
 		info.Nonce = nil
+	case "noNotAfter":
+		info.NotAfter = nil
 	case "noEncKey":
 		info.EncryptionPublicKeyBytes = nil
 	case "badEncType":
@@ -524,6 +559,13 @@ func (r *run) submit(op map[string]any, ln *Line) {
 		i := pick(len(req.BundleSignature))
 		req.BundleSignature = req.BundleSignature[:i]
 		ln.Obs["bit"] = i
+	case "appendField22":
+		// a registration-flow info (field 22) appended to the validly signed bundle
+		extra, _ := proto.Marshal(&types.FetchNodeCredentialsInfo{WrappingRegistrationFlowInfo: &types.WrappingRegistrationFlowInfo{
+			CertificatePublicKeyPkix: info.CertificatePublicKeyPkix, Nonce: info.Nonce}})
+		req.Bundle = append(append([]byte(nil), req.Bundle...), extra...)
+	case "appendUnknownField":
+		req.Bundle = append(append([]byte(nil), req.Bundle...), 0x98, 0x06, 0x01) // field 99, varint 1
 	case "noBundle":
 		req.Bundle = nil
 	case "noSig":
@@ -766,6 +808,31 @@ func (r *run) rotate(op map[string]any, ln *Line) {
 	ln.Obs["opens"] = opens
 	ln.Obs["innerOpens"] = innerOpens
 	ln.Obs["echo"] = echo
+}
+
+// reconstructible: can the token be rebuilt from what the server persisted for it (record id and record bytes)?
+// The token is (nonce, hmac key); the id is base58(nonce || HMAC(key, "")). Every 32-byte window of the
+// persisted material is tried as the key.
+func reconstructible(w *world.World, tok *world.Token) bool {
+	raw := &types.ServerLedActivationToken{Id: tok.Id}
+	if w.Inner.Load(w.Ctx, raw) != nil {
+		return false
+	}
+	rb, _ := proto.Marshal(raw)
+	idb, err := base58.FastBase58Decoding(tok.Id)
+	if err != nil || len(idb) < 32 {
+		return false
+	}
+	material := append(append([]byte(nil), idb...), rb...)
+	nonce := idb[:32]
+	for i := 0; i+32 <= len(material); i++ {
+		key := material[i : i+32]
+		hm := hmac.New(sha256.New, key)
+		if base58.FastBase58Encoding(hm.Sum(append([]byte(nil), nonce...))) == tok.Id {
+			return true
+		}
+	}
+	return false
 }
 
 // MarshalLines renders lines as ndjson.
